@@ -192,3 +192,14 @@ impl BVec {
     ensures i < self.d@.len() ==> o == Some(self.d@[i as int]), i >= self.d@.len() ==> o.is_none(),
   { if i < self.d.len() { Some(self.d[i]) } else { None } }
 }
+
+// element arithmetic of the op-assignment kernels: one uninterpreted total function per operator (the kernels are generic
+// in the element type; overflow / division by zero of the element type are outside this model)
+pub uninterp spec fn opf_add(a: u64, b: u64) -> u64;
+pub uninterp spec fn opf_sub(a: u64, b: u64) -> u64;
+pub uninterp spec fn opf_mul(a: u64, b: u64) -> u64;
+pub uninterp spec fn opf_div(a: u64, b: u64) -> u64;
+#[verifier::external_body] pub fn wadd(a: u64, b: u64) -> (o: Option<u64>) ensures o == Some(opf_add(a, b)) { unimplemented!() }
+#[verifier::external_body] pub fn wsub(a: u64, b: u64) -> (o: Option<u64>) ensures o == Some(opf_sub(a, b)) { unimplemented!() }
+#[verifier::external_body] pub fn wmul(a: u64, b: u64) -> (o: Option<u64>) ensures o == Some(opf_mul(a, b)) { unimplemented!() }
+#[verifier::external_body] pub fn wdiv(a: u64, b: u64) -> (o: Option<u64>) ensures o == Some(opf_div(a, b)) { unimplemented!() }
